@@ -399,10 +399,15 @@ def check_C13(ctx):
 def check_C14(ctx):
     res = run_family(ctx, "results", "MC_FuncResults", ["FuncResults_gen.cfg"], "FuncResultsTrace", rand_n=1, a_cfgs=["FuncResults_A.cfg"], shard=4000,
                      exec_timeout=5400)
+    if os.path.exists(os.path.join(vlib.SPECS, "FuncResults_A_bugdemo.cfg")):
+        vlib.tlc_expect_violation(ctx, "MC_FuncResults", "FuncResults_A_bugdemo.cfg", "C14_Terminates")
+    # unbounded: any finite set of functions, any number of results, any call graph (FuncResults.tla itself)
+    proved = vlib.tlaps_prove(ctx, "proofs/FuncResultsProof.tla", with_modules=("FuncResults.tla", "proofs/stubs/Json.tla"))
     fails = vlib.collect_failures(res["trace"], res["bad"], "results", only_prefix="C14")
     tr = res["trace"]
     corpus = [r for r in tr if r["case"]["kind"] == "corpus"]
     cov = {
+        "tlaps_obligations_discharged": proved,
         "traces_validated_against_impl": len(tr),
         "evaluations": len(tr),
         "distinct_nontrivial": _distinct(tr, lambda r: r["obs"]["declared_n"] > 0, key=lambda r: json.dumps([r["case"].get("pkg"), r["case"].get("func"), r["case"].get("shapes")])),
